@@ -82,7 +82,7 @@ def require_cases(chk, rep_cases, kinds, ops, mants=(53, 24), what=""):
 
 
 def machine_check(pid, tier, ops_def, ops_list, kinds, props, replay_mode, what, rule, mants=(53, 24), depth=3,
-                  extra_jobs=(), sim=None):
+                  extra_jobs=(), sim=None, traces=None):
     loadset = "LoadSetQuick" if tier == "quick" else "LoadSetGeneric"
     """the common shape of the calculator-based checks: TLC explores the machine for every
     kind (checking the model-level action properties), every behaviour is replayed"""
@@ -107,4 +107,98 @@ def machine_check(pid, tier, ops_def, ops_list, kinds, props, replay_mode, what,
         rep = replay(res, mode=replay_mode)
         absorb_replay(chk, rep, what)
     require_cases(chk, chk.distinct, kinds, ops_list, mants=mants, what=pid)
+    if traces:
+        trace_check(chk, traces[0], traces[1], what + " / trace validation")
     return chk, results[:nextra]
+
+
+# ------------------------------------------------------------------ trace validation (impl -> spec)
+KEY_OF = {  # (kind, n, m) -> concrete configurations to record traces from
+    ("Dual", 1, 1): ["Dual:f64", "Dual:f32"], ("Dual2", 1, 1): ["Dual2:f64", "Dual2:f32"],
+    ("Dual3", 1, 1): ["Dual3:f64", "Dual3:f32"], ("HyperDual", 1, 1): ["HyperDual:f64", "HyperDual:f32"],
+    ("HHD", 1, 1): ["HHD:f64", "HHD:f32"],
+    ("DualVec", 2, 1): ["DualVec:2:f64", "DualVec:dyn:f64", "DualVec:2:f32"],
+    ("DualVec", 3, 1): ["DualVec:3:f64", "DualVec:dyn:f32"], ("DualVec", 1, 1): ["DualVec:1:f64"],
+    ("Dual2Vec", 2, 1): ["Dual2Vec:2:f64", "Dual2Vec:dyn:f64", "Dual2Vec:2:f32"],
+    ("Dual2Vec", 3, 1): ["Dual2Vec:3:f64", "Dual2Vec:dyn:f32"], ("Dual2Vec", 1, 1): ["Dual2Vec:1:f64"],
+    ("HyperDualVec", 3, 2): ["HyperDualVec:2x3:f64", "HyperDualVec:dyn:f64"],
+    ("HyperDualVec", 2, 2): ["HyperDualVec:2x2:f64", "HyperDualVec:2x2:f32", "HyperDualVec:dyn:f32"],
+    ("HyperDualVec", 1, 1): ["HyperDualVec:1x1:f64"], ("HyperDualVec", 2, 1): ["HyperDualVec:1x2:f64"],
+    ("HyperDualVec", 1, 2): ["HyperDualVec:2x1:f64"],
+}
+
+
+def trace_cfg(kind, n, m, nr, mant):
+    return cfg(constants={"Kind": kind, "N": n, "M": m, "NR": nr, "Mant": mant}, invariants=["Done"],
+               postcondition="Accepted")
+
+
+def validate_trace(path, kind, n, m, nr, mant, name):
+    res = run_tlc("TraceCalc.tla", trace_cfg(kind, n, m, nr, mant), name, workers=1, timeout=600,
+                  env_extra={"TRACE": path}, java_opts="-Xss1g")
+    done = [b for t, b in res.behaviours() if t == "TRACE-DONE"]
+    rej = [b for t, b in res.behaviours() if t == "TRACE-REJECTED"]
+    return res, (done[0] if done else None), (rej[0] if rej else None)
+
+
+def corrupt_trace(path, out):
+    """copy of the trace with the real part of one always-checked event (neg) changed by one
+    unit in the numerator; returns the 1-based line number"""
+    lines = open(path).read().splitlines()
+    cand = [i for i, l in enumerate(lines) if '"op":"neg"' in l]
+    if not cand:
+        return None
+    i = cand[len(cand) // 2]
+    e = json.loads(lines[i])
+    e["post"]["re"][0] += e["post"]["re"][1]
+    lines[i] = json.dumps(e, separators=(",", ":"))
+    open(out, "w").write("\n".join(lines) + "\n")
+    return i + 1
+
+
+def trace_check(chk, kinds, events, what, seed_off=0, nr=4):
+    """record traces on the real crate, validate them (and a corrupted copy) with TLC"""
+    build_harness("hcore")
+    jobs = []
+    for (k, n, m) in kinds:
+        for key in KEY_OF.get((k, n, m), []):
+            def job(k=k, n=n, m=m, key=key):
+                d = os.path.join(WORK, "trace_" + key.replace(":", "_"))
+                os.makedirs(d, exist_ok=True)
+                path = os.path.join(d, "trace.ndjson")
+                info = run_harness("hcore", ["emit", "--type", key, "--kind", k, "--n", str(n), "--m", str(m), "--seed",
+                                             str(seed() * 1000 + seed_off), "--events", str(events), "--nr", str(nr),
+                                             "--out", path])
+                mant = 24 if key.endswith("f32") else 53
+                tag = "tv_" + key.replace(":", "_")
+                res, done, rej = validate_trace(path, k, n, m, nr, mant, tag)
+                bad = path + ".corrupt"
+                line = corrupt_trace(path, bad)
+                res2, done2, rej2 = validate_trace(bad, k, n, m, nr, mant, tag + "_corrupt") if line else (None, None, None)
+                return key, path, info, res, done, rej, line, rej2
+            jobs.append(job)
+    for key, path, info, res, done, rej, line, rej2 in parallel(jobs, max_par=6):
+        chk.add_tlc(res, "validation of a trace recorded from %s" % key)
+        if rej is not None or done is None:
+            keep = os.path.join(REPLAYS, "trace_%s_%s_%d.ndjson" % (chk.pid, key.replace(":", "_"), seed()))
+            os.makedirs(REPLAYS, exist_ok=True)
+            shutil.copy(path, keep)
+            chk.violation("%s: trace of %s rejected by TraceCalc at line %s: %s" % (
+                what, key, rej and rej.get("line"), json.dumps(rej and rej.get("event"))[:600]),
+                {"kind": "trace-line", "type": key, "trace": keep, "line": rej and rej.get("line"),
+                 "event": rej and rej.get("event"), "tlc_errors": res.errors[:3]})
+            continue
+        chk.cov["traces_validated_against_impl"] += 1
+        chk.cov["evaluations"] += done["checked"]
+        chk.cov.setdefault("trace_events_checked", 0)
+        chk.cov.setdefault("trace_events_adopted_unchecked", 0)
+        chk.cov["trace_events_checked"] += done["checked"]
+        chk.cov["trace_events_adopted_unchecked"] += done["adopted"]
+        chk.distinct.add("trace|" + key)
+        # the binding itself: a corrupted copy must be rejected at exactly the corrupted line
+        if line is not None:
+            if rej2 is None or rej2.get("line") != line:
+                raise ToolError("binding broken: corrupted trace of %s (line %s) was not rejected there (%s)" % (
+                    key, line, rej2 and rej2.get("line")))
+            chk.cov.setdefault("corrupted_traces_rejected", 0)
+            chk.cov["corrupted_traces_rejected"] += 1
